@@ -386,7 +386,60 @@ def check_copies(ctx, case):
             ctx.violation("C13:two-copies-share-a-label-block", "block at %s carries temporary labels of copies %s" % (blk.address, sorted(mine)), case)
 
 
+def check_extern(ctx, g):
+    """get_or_insert_extern_symbol: a name the module has binds to the module's own symbol whatever it refers to; an
+    unknown name gives one proxy-backed symbol, the same object on every call; and a patch that uses the name
+    binds to that object"""
+    import logging
+
+    import gtirb
+    import gtirb_functions
+    from gtirb_test_helpers import add_code_block, add_data_block, add_proxy_block, add_symbol, add_text_section, create_test_module
+
+    import emodify
+    from gtirb_rewriting import RewritingContext
+
+    logging.disable(logging.CRITICAL)
+    ctx.case(g, sample=g if len(ctx.samples) < 5 else None, nontrivial=True)
+    ctx.count("extern:" + g["kind"])
+    ff = gtirb.Module.FileFormat.ELF
+    ir, m = create_test_module(ff, gtirb.Module.ISA.X64, binary_type=["DYN"])
+    _, bi = add_text_section(m, address=0x1000)
+    code = add_code_block(bi, b"\x90\x90\xc3")
+    data = add_data_block(bi, b"\x00" * 8)
+    existing = None
+    if g["kind"] == "code":
+        existing = add_symbol(m, "log_event", add_code_block(bi, b"\xc3"))
+    elif g["kind"] == "data":
+        existing = add_symbol(m, "log_event", data)
+    elif g["kind"] == "proxy":
+        existing = add_symbol(m, "log_event", add_proxy_block(m))
+    rc = RewritingContext(m, gtirb_functions.Function.build_functions(m))
+    got = [rc.get_or_insert_extern_symbol("log_event", "libfoo.so") for _ in range(g["calls"])]
+    if existing is not None and any(y is not existing for y in got):
+        ctx.violation("C13:extern-does-not-bind-to-the-module-symbol", "the module defines log_event (%s) but get_or_insert_extern_symbol returned another symbol object" % g["kind"], g)
+    if any(y is not got[0] for y in got):
+        ctx.violation("C13:extern-created-twice", "two calls for one name returned two symbol objects", g)
+    if g["kind"] != "data":
+        rc.insert_at(code, g["off"], emodify.make_patch("call log_event"))
+    try:
+        rc.apply()
+    except Exception as e:  # noqa: BLE001
+        ctx.violation("C13:extern-raises", "apply() raised %s: %s" % (type(e).__name__, str(e)[:100]), g)
+        return
+    names = [y.name for y in m.symbols]
+    if names.count("log_event") != 1:
+        ctx.violation("C13:copies-share-a-name", "the module has %d symbols named log_event" % names.count("log_event"), g)
+    for x in m.byte_intervals:
+        for off, e in x.symbolic_expressions.items():
+            for y in e.symbols:
+                if y.name == "log_event" and y is not got[0]:
+                    ctx.violation("C13:module-symbol-not-bound", "the patch's operand names log_event but not the symbol object the module holds", g)
+
+
 def run(ctx):
+    for k in range(ctx.budget(24, 200)):
+        check_extern(ctx, {"extern": True, "kind": ["code", "data", "proxy", "none"][k % 4], "calls": 1 + k % 3, "off": k % 3})
     pending = []
     n = ctx.budget(1000, 25000)
     for i in range(n):
@@ -400,6 +453,9 @@ def run(ctx):
 
 def replay(ctx, payload):
     case = payload.get("case", payload)
+    if case.get("extern"):
+        check_extern(ctx, case)
+        return
     if case.get("copies"):
         check_copies(ctx, case)
         return
